@@ -32,3 +32,26 @@ let () =
         (str_list ni (TimerQueue.completions st)) (str_list ni (TimerQueue.queue_ids st))
         (if TimerQueue.quiescent st then "1" else "0") (zi (TimerQueue.now st))
     | _ -> "ERR args")
+
+(* unsafeloop <uninit|null> <now0> <spec,spec,...> | tid tid ...   (coq/Proto/UnsafeLoopDefs.v) *)
+let render_ul = function
+  | UnsafeLoop.EStart i -> "start " ^ ni i
+  | UnsafeLoop.EStop i -> "stop " ^ ni i
+  | UnsafeLoop.EUninit i -> "uninit " ^ ni i
+  | UnsafeLoop.EFire (i, t) -> Printf.sprintf "fire %s %s" (ni i) (zi t)
+  | UnsafeLoop.EDone (i, t) -> Printf.sprintf "done %s %s" (ni i) (zi t)
+  | UnsafeLoop.EClock t -> "clock " ^ zi t
+  | UnsafeLoop.EEnter -> "enter"
+  | UnsafeLoop.EExit -> "exit"
+let () =
+  Registry.register "unsafeloop" (fun args ->
+    match args with
+    | l0 :: now0 :: specs :: "|" :: tids ->
+      let sp = List.map spec_of (List.filter (fun x -> x <> "") (String.split_on_char ',' specs)) in
+      let l0 = if l0 = "null" then UnsafeLoop.LNull else UnsafeLoop.LUninit in
+      let step t s = UnsafeLoop.step (nat_of_int t) s in
+      let (st, tr) = Lockstep.run step render_ul (UnsafeLoop.init l0 (z_of_string now0) sp) (ints_of_words tids) in
+      Printf.sprintf "%s # completions=%s queue=%s crashed=%s inloop=%s now=%s" tr
+        (str_list ni (UnsafeLoop.completions st)) (str_list ni (UnsafeLoop.queue_ids st))
+        (if UnsafeLoop.crashed st then "1" else "0") (if UnsafeLoop.inloop st then "1" else "0") (zi (UnsafeLoop.now st))
+    | _ -> "ERR args")
